@@ -162,7 +162,9 @@ fn run(h: &[usize], lru_capacity: Option<usize>) -> Result<(), String> {
                 m.rows[0].ensure(m.ver[0], v[0]); let r = m.rows[0].rev; m.pick_a2.ensure(r, v[0] % 2);
             }
         }
-        if !collected {
+        // (with the default cache nothing that was called is ever evicted, so a collection must
+        // not change any execution count either)
+        if !collected || lru_capacity.is_none() {
             let got = [RUNS[0].load(Ordering::SeqCst), RUNS[1].load(Ordering::SeqCst), RUNS[2].load(Ordering::SeqCst), RUNS[3].load(Ordering::SeqCst)];
             let expected = [m.pick_a.runs, m.pick_b.runs, m.reader.runs, m.pick_a2.runs];
             if got != expected {
@@ -199,6 +201,22 @@ fn main() {
                     println!("DIFFERENT: history [{}]{}: {m}", show(&h), if cap.is_some() { " with a cache of 1 recent top-level call" } else { "" });
                     std::process::exit(1);
                 }
+            }
+        }
+    }
+    // directed family (C02 across a collection, cheap enough for every run): every prefix of at
+    // most 3 steps, then  collect; two writes to table b (at least one is effective: the epoch
+    // advances); one call  - a surviving node must not be re-executed because of the collection
+    for len in 0..=3usize {
+        for code in 0..N_OPS.pow(len as u32) {
+            let mut c = code;
+            let prefix: Vec<usize> = (0..len).map(|_| { let o = c % N_OPS; c /= N_OPS; o }).collect();
+            for call in [8usize, 9, 10, 12] {
+                let mut h = prefix.clone();
+                h.extend([11, 5, 6, call]);
+                n += 1;
+                let r = std::panic::catch_unwind(|| run(&h, None)).unwrap_or_else(|_| Err("pico panicked".to_string()));
+                if let Err(m) = r { println!("DIFFERENT: history [{}]: {m}", show(&h)); std::process::exit(1); }
             }
         }
     }
